@@ -3,12 +3,23 @@
  *
  * Input is the octet block s[0..n) -- r_ok(s, n) and nothing more, so a read
  * of s[n] or beyond fails a pointer check in every function below, for
- * NUL-terminated and length-delimited callers alike.  Facts about "every
- * octet of a range" are stated at the ghost indices g_k / g_j.
+ * NUL-terminated and length-delimited callers alike.
+ *
+ * Three layers of clauses:
+ *  (1) all input lengths: reads, positions, the status/node relation, the
+ *      allocation ledger g_sx_live; facts about "every octet of a range" at
+ *      the ghost index g_k; loops by inductive loop contracts with
+ *      `decreases` (contracts/sx.loops);
+ *  (2) input length <= SX_QMAX: status, position and node type EXACTLY as a
+ *      function of the text, through the ghost tables of spec/sx.h (clauses
+ *      of the form IMPLIES(SX_RUNS_OK / SX_GRAMMAR_OK, ...), conditional on
+ *      the ghost flag that says the tables satisfy their equations);
+ *  (3) bounded targets for what a non-recursive contract cannot state
+ *      (integer values, sx_destroy on whole trees): harness/sx.c.
  *
  * Static state: `digits` and `syminitchtab` are non-const pointers, hence
  * nondeterministic inside a function checked under dfcc.  Their expected
- * content is the static-state invariant SX_STATIC_*_OK, assumed by the
+ * content is the static-state invariant SX_STATIC_*_OK, assumed by the two
  * functions that read them and proved at program start by the base target
  * `static_tables` (plain harness after __CPROVER_initialize()).  No assigns
  * clause lists them, so they are preserved.
@@ -94,7 +105,8 @@ __CPROVER_ensures(__CPROVER_return_value == SPEC_SX_ISDELIM(c))
 
 /* ---- allocation ---------------------------------------------------------
  * Every constructor returns a fresh node; the ledger says how many blocks it
- * took.  Allocation failure is fatal in sx.c (sxoom) and not modelled. */
+ * took.  CBMC's malloc may fail; sx.c then calls sxoom (fprintf, _Exit), which
+ * ends the path: a constructor that returns has allocated. */
 
 /* (the bounded fallback of the engine evaluates the clauses in plain cbmc,
  * where is_fresh has no meaning: there "fresh" is read as "readable") */
@@ -262,18 +274,10 @@ SX_INT_ENSURES(s, n, i, 2, 16)
  * whitespace" is NOT an error at this level (test suite: SXS_SUCCESS with a
  * NULL node); the expression level turns it into SXS_UNEXPECTED_END.
  *   success + node  : i < position <= n, fresh symbol / integer / empty-list
- *                     node, the token ends at position, only whitespace
- *                     before it
+ *                     node, the token ends at position
  *   SXS_FOUND_LIST  : '(' at position-1, no node
  *   error           : no node, nothing allocated, position = offending octet
- * The text of a symbol node is the token itself: with L = its length,
- * symbol == s[position-L .. position).
  */
-#if VERIF_IS_NATIVE
-#define SX_SYMLEN(p) strlen(p)
-#else
-#define SX_SYMLEN(p) (__CPROVER_OBJECT_SIZE(p) - 1)
-#endif
 #define SX_STATUS_IS_ERROR(st) ((st) == SXS_BROKEN_INTEGER || (st) == SXS_BROKEN_SYMBOL \
                                 || (st) == SXS_UNKNOWN_INPUT || (st) == SXS_UNEXPECTED_END)
 #define SX_RV __CPROVER_return_value
